@@ -1,0 +1,468 @@
+//! Verification harness (C12, see /verif): drives the real batching code
+//! (`BlobSubmitter::add_sequencer_block_to_next_submission`, `has_capacity`,
+//! `NextSubmission::try_add` / `take`, `Submission::into_blobs`) with real `SequencerBlock`s and
+//! decodes the produced blobs the way conductor does (brotli decompress, protobuf decode,
+//! `try_from_raw`).
+//!
+//! Script (`$VERIF_IN`), one op per line; one observation line per op goes to `$VERIF_OUT`:
+//!
+//! ```text
+//! case <name> filter=<r1,r2,...|->      fresh BlobSubmitter (empty filter = all rollups)
+//! recv <height> <r>:<nbytes>:<seed>,... the `blocks.recv()` arm of `BlobSubmitter::run` for a
+//!                                       block carrying, per item, <nbytes> of data for rollup
+//!                                       <r> (seed 0: highly compressible, else ChaCha bytes);
+//!                                       `-` for a block without rollup data
+//! take                                  the `next_submission.take()` arm of `run` (take, then
+//!                                       re-add the pending block)
+//! ```
+//!
+//! Test-only, add-only; compiled only with `--features verif`.
+use std::{
+    collections::BTreeMap,
+    fmt::Write as _,
+    panic::{
+        catch_unwind,
+        AssertUnwindSafe,
+    },
+    sync::Arc,
+};
+
+use astria_core::{
+    brotli::decompress_bytes,
+    generated::astria::sequencerblock::v1 as raw,
+    primitive::v1::RollupId,
+    protocol::test_utils::ConfigureSequencerBlock,
+    sequencerblock::v1::{
+        block,
+        SubmittedMetadata as DomainMetadata,
+        SubmittedRollupData as DomainRollupData,
+    },
+    Protobuf as _,
+};
+use base64::{
+    prelude::BASE64_STANDARD,
+    Engine as _,
+};
+use prost::{
+    bytes::Bytes,
+    Message as _,
+};
+use rand_chacha::{
+    rand_core::{
+        RngCore as _,
+        SeedableRng as _,
+    },
+    ChaChaRng,
+};
+use sha2::{
+    Digest as _,
+    Sha256,
+};
+use telemetry::Metrics as _;
+use tokio_util::sync::CancellationToken;
+
+use super::{
+    super::BlobSubmitter,
+    TryAddError,
+};
+use crate::{
+    metrics::Metrics,
+    relayer::{
+        CelestiaClientBuilder,
+        CelestiaKeys,
+        State,
+        SubmissionStateAtStartup,
+    },
+    IncludeRollup,
+};
+
+const CHAIN_ID: &str = "verif-sequencer";
+
+fn rollup_id(r: u64) -> RollupId {
+    RollupId::from_unhashed_bytes(format!("verif-rollup-{r}"))
+}
+
+fn digest(bytes: &[u8]) -> u64 {
+    let d = Sha256::digest(bytes);
+    u64::from_be_bytes(d[..8].try_into().unwrap()) >> 1
+}
+
+fn block_hash(height: u32) -> block::Hash {
+    block::Hash::new(Sha256::digest(format!("verif-block-{height}")).into())
+}
+
+fn make_block(height: u32, items: &[(u64, usize, u64)]) -> sequencer_client::SequencerBlock {
+    let sequence_data = items
+        .iter()
+        .map(|&(r, nbytes, seed)| {
+            let mut data = vec![0u8; nbytes];
+            if seed == 0 {
+                #[expect(clippy::cast_possible_truncation, reason = "test data")]
+                data.fill((nbytes % 251) as u8);
+            } else {
+                ChaChaRng::seed_from_u64(seed).fill_bytes(&mut data);
+            }
+            (rollup_id(r), data)
+        })
+        .collect();
+    ConfigureSequencerBlock {
+        block_hash: Some(block_hash(height)),
+        chain_id: Some(CHAIN_ID.to_string()),
+        height,
+        signing_key: Some(astria_core::crypto::SigningKey::from([7u8; 32])),
+        sequence_data,
+        ..ConfigureSequencerBlock::default()
+    }
+    .make()
+}
+
+/// What conductor must get back for the metadata of `block`, built from the block's accessors
+/// (not through `split_for_celestia`).
+fn expected_metadata(block: &sequencer_client::SequencerBlock) -> raw::SubmittedMetadata {
+    raw::SubmittedMetadata {
+        block_hash: Bytes::copy_from_slice(block.block_hash().as_bytes()),
+        header: Some(block.header().clone().into_raw()),
+        rollup_ids: block
+            .rollup_transactions()
+            .keys()
+            .map(|id| id.into_raw())
+            .collect(),
+        rollup_transactions_proof: Some(block.rollup_transactions_proof().to_raw()),
+        rollup_ids_proof: Some(block.rollup_ids_proof().to_raw()),
+        upgrade_change_hashes: block
+            .upgrade_change_hashes()
+            .iter()
+            .map(|hash| Bytes::copy_from_slice(hash.as_bytes()))
+            .collect(),
+        extended_commit_info_with_proof: block.encoded_extended_commit_info().map(|info| {
+            raw::ExtendedCommitInfoWithProof {
+                extended_commit_info: info.clone(),
+                proof: block.extended_commit_info_proof().map(|proof| proof.to_raw()),
+            }
+        }),
+    }
+}
+
+/// Per rollup of `block` what conductor must get back, from the block's accessors.
+fn expected_rollup_data(
+    block: &sequencer_client::SequencerBlock,
+) -> Vec<(RollupId, raw::SubmittedRollupData)> {
+    block
+        .rollup_transactions()
+        .iter()
+        .map(|(id, txs)| {
+            (
+                *id,
+                raw::SubmittedRollupData {
+                    sequencer_block_hash: Bytes::copy_from_slice(block.block_hash().as_bytes()),
+                    rollup_id: Some(id.into_raw()),
+                    transactions: txs.transactions().to_vec(),
+                    proof: Some(txs.proof().to_raw()),
+                },
+            )
+        })
+        .collect()
+}
+
+struct Case {
+    submitter: BlobSubmitter,
+    filter: IncludeRollup,
+    /// rollup ids seen so far, to print small integers
+    names: BTreeMap<RollupId, u64>,
+    /// `run` has returned with a critical error: nothing is processed any more
+    halted: bool,
+    _state_file: tempfile::NamedTempFile,
+}
+
+async fn new_case(filter: &str, metrics: &'static Metrics) -> Case {
+    let ids: Vec<u64> = if filter == "-" {
+        vec![]
+    } else {
+        filter.split(',').map(|x| x.parse().unwrap()).collect()
+    };
+    let encoded = ids
+        .iter()
+        .map(|r| BASE64_STANDARD.encode(rollup_id(*r).as_bytes()))
+        .collect::<Vec<_>>()
+        .join(",");
+    let filter = IncludeRollup::parse(&encoded).unwrap();
+    let state_file = tempfile::NamedTempFile::new().unwrap();
+    std::fs::write(state_file.path(), r#"{"state": "fresh"}"#).unwrap();
+    let at_startup = SubmissionStateAtStartup::new_from_path(state_file.path())
+        .await
+        .unwrap();
+    let state = Arc::new(State::new());
+    let keys = CelestiaKeys::from(
+        tendermint::private_key::Secp256k1::from_slice(&[1u8; 32]).unwrap(),
+    );
+    let client_builder = CelestiaClientBuilder::new(
+        "verif-celestia".to_string(),
+        0.002,
+        "http://127.0.0.1:1".parse().unwrap(),
+        keys,
+        state.clone(),
+    )
+    .unwrap();
+    let (submitter, _handle) = BlobSubmitter::new(
+        client_builder,
+        filter.clone(),
+        state,
+        at_startup,
+        CancellationToken::new(),
+        metrics,
+    );
+    Case {
+        submitter,
+        filter,
+        names: BTreeMap::new(),
+        halted: false,
+        _state_file: state_file,
+    }
+}
+
+fn add_class(
+    case: &mut Case,
+    block: sequencer_client::SequencerBlock,
+) -> (&'static str, Option<usize>) {
+    let had_pending = case.submitter.pending_block.is_some();
+    match case.submitter.add_sequencer_block_to_next_submission(block) {
+        Ok(()) => {
+            if !had_pending && case.submitter.pending_block.is_some() {
+                ("full", None)
+            } else {
+                ("ok", Some(case.submitter.next_submission.payload.compressed_size()))
+            }
+        }
+        Err(report) => {
+            // `run` breaks out of its loop with this error
+            case.halted = true;
+            for cause in report.chain() {
+                if let Some(TryAddError::OversizedBlock {
+                    compressed_size, ..
+                }) = cause.downcast_ref::<TryAddError>()
+                {
+                    return ("oversized", Some(*compressed_size));
+                }
+            }
+            ("err", None)
+        }
+    }
+}
+
+/// The compressed size of the payload `try_add` builds for `next_submission + block`
+/// (measurement only; used to report the candidate size when the block is refused as `full`).
+fn candidate_size(case: &Case, block: &sequencer_client::SequencerBlock) -> Option<usize> {
+    let mut candidate = case.submitter.next_submission.input.clone();
+    candidate.extend_from_sequencer_block(block.clone(), &case.filter);
+    candidate
+        .try_into_payload()
+        .ok()
+        .map(|payload| payload.compressed_size())
+}
+
+fn op_recv(case: &mut Case, toks: &[&str]) -> String {
+    let height: u32 = toks[1].parse().unwrap();
+    let items: Vec<(u64, usize, u64)> = if toks[2] == "-" {
+        vec![]
+    } else {
+        toks[2]
+            .split(',')
+            .map(|item| {
+                let mut parts = item.split(':');
+                (
+                    parts.next().unwrap().parse().unwrap(),
+                    parts.next().unwrap().parse().unwrap(),
+                    parts.next().unwrap().parse().unwrap(),
+                )
+            })
+            .collect()
+    };
+    for (r, ..) in &items {
+        case.names.insert(rollup_id(*r), *r);
+    }
+    let block = make_block(height, &items);
+    let meta = digest(&expected_metadata(&block).encode_to_vec());
+    let rd = expected_rollup_data(&block)
+        .into_iter()
+        .map(|(id, raw)| format!("{}:{}", case.names[&id], digest(&raw.encode_to_vec())))
+        .collect::<Vec<_>>()
+        .join(",");
+    let rd = if rd.is_empty() { "-".to_string() } else { rd };
+    let mut out = format!("recv h={height} in={meta} rd={rd}");
+    if case.submitter.has_capacity() {
+        let copy = block.clone();
+        let (class, size) = add_class(case, block);
+        // a refusal as `full` leaves the next submission untouched: measure what was refused
+        let size = if class == "full" {
+            candidate_size(case, &copy)
+        } else {
+            size
+        };
+        write!(
+            out,
+            " res={class} csize={}",
+            size.map_or("-".to_string(), |s| s.to_string())
+        )
+        .unwrap();
+    } else {
+        out.push_str(" res=busy csize=-");
+    }
+    write!(out, " cap={}", case.submitter.has_capacity()).unwrap();
+    out
+}
+
+fn op_take(case: &mut Case) -> String {
+    use futures::FutureExt as _;
+    // The body of the `next_submission.take()` arm of `BlobSubmitter::run` (the future is ready
+    // on its first poll).
+    let Some(submission) = case
+        .submitter
+        .next_submission
+        .take()
+        .now_or_never()
+        .expect("TakeSubmission is ready when polled")
+    else {
+        return "take none".to_string();
+    };
+    let readd = if let Some(block) = case.submitter.pending_block.take() {
+        let (class, size) = add_class(case, block);
+        format!(
+            "readd={class} csize2={}",
+            size.map_or("-".to_string(), |s| s.to_string())
+        )
+    } else {
+        "readd=none csize2=-".to_string()
+    };
+
+    let size = submission.compressed_size();
+    let nblocks = submission.num_blocks();
+    let greatest = submission.greatest_sequencer_height().value();
+    let blobs = submission.into_blobs();
+    let real: usize = blobs.iter().map(|blob| blob.data.len()).sum();
+
+    // conductor side
+    let sequencer_namespace = astria_core::celestia::namespace_v0_from_sha256_of_bytes(CHAIN_ID);
+    let mut metas = vec![];
+    let mut rds: BTreeMap<u64, Vec<String>> = BTreeMap::new();
+    let mut bad = vec![];
+    for (i, blob) in blobs.iter().enumerate() {
+        let Ok(data) = decompress_bytes(&blob.data) else {
+            bad.push(format!("{i}:brotli"));
+            continue;
+        };
+        if blob.namespace == sequencer_namespace {
+            let Ok(list) = raw::SubmittedMetadataList::decode(&*data) else {
+                bad.push(format!("{i}:proto"));
+                continue;
+            };
+            for entry in list.entries {
+                match DomainMetadata::try_from_raw(entry) {
+                    Ok(meta) => {
+                        let ids = meta
+                            .rollup_ids()
+                            .map(|id| case.names.get(id).map_or("?".to_string(), u64::to_string))
+                            .collect::<Vec<_>>()
+                            .join("+");
+                        metas.push(format!(
+                            "{}/{}/{}",
+                            meta.height().value(),
+                            digest(&meta.clone().into_raw().encode_to_vec()),
+                            if ids.is_empty() { "-".to_string() } else { ids },
+                        ));
+                    }
+                    Err(_) => bad.push(format!("{i}:meta")),
+                }
+            }
+        } else {
+            let Some(r) = case.names.iter().find_map(|(id, r)| {
+                (astria_core::celestia::namespace_v0_from_rollup_id(*id) == blob.namespace)
+                    .then_some(*r)
+            }) else {
+                bad.push(format!("{i}:namespace"));
+                continue;
+            };
+            let Ok(list) = raw::SubmittedRollupDataList::decode(&*data) else {
+                bad.push(format!("{i}:proto"));
+                continue;
+            };
+            let entries = rds.entry(r).or_default();
+            for entry in list.entries {
+                match DomainRollupData::try_from_raw(entry) {
+                    Ok(rd) => {
+                        if case.names.get(&rd.rollup_id()) == Some(&r) {
+                            entries.push(digest(&rd.into_raw().encode_to_vec()).to_string());
+                        } else {
+                            bad.push(format!("{i}:rollup-id"));
+                        }
+                    }
+                    Err(_) => bad.push(format!("{i}:rollup-data")),
+                }
+            }
+        }
+    }
+    let rd = rds
+        .iter()
+        .map(|(r, list)| format!("{r}:{}", list.join("+")))
+        .collect::<Vec<_>>()
+        .join(",");
+    format!(
+        "take size={size} real={real} nblocks={nblocks} greatest={greatest} nblobs={} meta={} \
+         rd={} bad={} {readd} cap={}",
+        blobs.len(),
+        if metas.is_empty() { "-".to_string() } else { metas.join(",") },
+        if rd.is_empty() { "-".to_string() } else { rd },
+        if bad.is_empty() { "-".to_string() } else { bad.join(",") },
+        case.submitter.has_capacity(),
+    )
+}
+
+#[tokio::test]
+async fn drive() {
+    let Ok(input) = std::env::var("VERIF_IN") else {
+        return;
+    };
+    let script = std::fs::read_to_string(input).unwrap();
+    let metrics: &'static Metrics = Box::leak(Box::new(Metrics::noop_metrics(&()).unwrap()));
+    let mut out = String::new();
+    let mut case: Option<Case> = None;
+    for line in script.lines() {
+        let toks: Vec<&str> = line.split_whitespace().collect();
+        let Some(op) = toks.first() else {
+            continue;
+        };
+        match *op {
+            "case" => {
+                let filter = toks
+                    .iter()
+                    .find_map(|t| t.strip_prefix("filter="))
+                    .unwrap_or("-");
+                case = Some(new_case(filter, metrics).await);
+                writeln!(out, "{line}").unwrap();
+            }
+            "recv" => {
+                let case = case.as_mut().unwrap();
+                if case.halted {
+                    writeln!(out, "recv h={} halted", toks[1]).unwrap();
+                    continue;
+                }
+                match catch_unwind(AssertUnwindSafe(|| op_recv(case, &toks))) {
+                    Ok(line) => writeln!(out, "{line}").unwrap(),
+                    Err(_) => writeln!(out, "recv h={} panic", toks[1]).unwrap(),
+                }
+            }
+            "take" => {
+                let case = case.as_mut().unwrap();
+                if case.halted {
+                    writeln!(out, "take halted").unwrap();
+                    continue;
+                }
+                match catch_unwind(AssertUnwindSafe(|| op_take(case))) {
+                    Ok(line) => writeln!(out, "{line}").unwrap(),
+                    Err(_) => writeln!(out, "take panic").unwrap(),
+                }
+            }
+            other => panic!("unknown op {other}"),
+        }
+    }
+    std::fs::write(std::env::var("VERIF_OUT").unwrap(), out).unwrap();
+}
